@@ -47,7 +47,10 @@ RULE = ('a scenario = one module object + a list of calls (chunks of one stream)
         '|model-impl| <= (32+4 N) eps scale (N = frames since construction); every scenario also checked against a '
         'sequential mpmath recursion written from the property text, chunked-vs-single, rank equivalence, cov symmetric PSD, '
         'argument tensors unchanged bit for bit, same tensors fed again, batch item = single IMU, call-form = constructor-form '
-        '(init_state / gyro_cov / acc_cov), state hand-over through init_state; memory layouts rotate; '
+        '(init_state / gyro_cov / acc_cov), state hand-over through init_state; memory layouts rotate; gravity and sensor covariances of '
+        'the oracle / model = what the constructor was GIVEN (0.0, int 0, negative, omitted = documented default; zero covariances), never '
+        'read back from the object; optional arguments given to some calls of a history only; every call of a reset=True object = the same '
+        'call on a fresh object, also after a call given other init_state / covariances / rot; '
         'a scenario is non-trivial when it has >= 2 frames; distinct = distinct (route, dtype, B, chunking, flags, data hash)')
 EPS = {'float64': 2.0 ** -52, 'float32': 2.0 ** -23}
 KEY_COV = 'IMUPreintegrator.forward:cov:one-call-vs-chunks:F>=3'
@@ -502,6 +505,8 @@ def model_view(sc, run):
     inits = [c.get('init') for c in sc['calls']]
     if any(c.get('cov') is not None for c in sc['calls']):
         return None                                         # covariances given to some calls only: oracle-only
+    if sc.get('gravity') is not None and not isinstance(sc['gravity'], float):
+        return None                                         # outside the documented type (float): the model has no such case
     if sc['reset'] and wellformed(sc) and len(set(len(c['dt']) for c in sc['calls'])) > 1:
         # Model/IMU.v run_calls keeps the state list of a reset=True object at the batch size of its first call (the code keeps
         # the (1,1,H) constructor buffers), so the model refuses a later call with another batch size: oracle-only
@@ -1108,7 +1113,11 @@ def decorate(rng, sc, mode):
       cov_call   : sensor covariances as per-call arguments, the constructor gets other values;
       reanchor   : a later call of the history is given a new init_state;
       per_item   : one initial state per IMU, (B,1,H), to the constructor or to init_state;
-      mixed_rot  : calls with and without a supplied rotation on one object"""
+      mixed_rot  : calls with and without a supplied rotation on one object;
+      init_some  : init_state to SOME calls of a history (at least once: a call with, then a call without), reset=True or False;
+      cov_some   : covariances to SOME calls of a reset=True history (each its own values), the others use the constructor's;
+      defaults   : constructor arguments omitted (gravity, gyro_cov, acc_cov, state: any subset) - the documented defaults apply;
+      noise_free : zero sensor covariances (float 0.0 or zero vectors), to the constructor or to the calls"""
     sc = dict(sc, calls=[dict(c) for c in sc['calls']])
     route, dtype, B = sc['route'], sc['dtype'], len(sc['calls'][0]['dt'])
     st = dict(pos=sc['pos'], rot=sc['rot'], vel=sc['vel'])
@@ -1142,6 +1151,38 @@ def decorate(rng, sc, mode):
         for i, c in enumerate(sc['calls']):
             if i % 2 == 1:
                 c['rot'] = None
+    elif mode == 'init_some':
+        n = len(sc['calls'])
+        sc['reset'] = rng.random() < 0.7
+        if not sc['reset']:
+            sc['prop_cov'] = True
+        if n >= 2:
+            k = rng.randrange(n - 1)                        # call k with init_state, call k + 1 without
+            for i, c in enumerate(sc['calls']):
+                if i == k or (i != k + 1 and rng.random() < 0.4):
+                    c['init'] = dict(rand_state(rng, route, dtype, B if rng.random() < 0.3 else None), form=rng.choice([1, 2, 3]))
+        sc['state_form'] = rng.choice([1, 2, 3])
+    elif mode == 'cov_some':
+        sc['reset'] = True
+        n = len(sc['calls'])
+        k = rng.randrange(max(1, n - 1))
+        for i, c in enumerate(sc['calls']):
+            if i == k or (i != k + 1 and rng.random() < 0.4):
+                c['cov'] = dict(gyro_cov=[2.0 ** -rng.randint(2, 9) for _ in range(3)], acc_cov=[2.0 ** -rng.randint(0, 6) for _ in range(3)],
+                                form=rng.choice([1, 3]))
+    elif mode == 'defaults':
+        omit = [k for k in ('gravity', 'gyro_cov', 'acc_cov', 'state') if rng.random() < 0.6] or ['gravity']
+        for k in omit:
+            if k == 'state':
+                sc.update(pos=None, rot=None, vel=None)
+            else:
+                sc[k] = None
+    elif mode == 'noise_free':
+        zero = lambda: (0.0 if rng.random() < 0.5 else [0.0, 0.0, 0.0])
+        if rng.random() < 0.5:
+            sc['gyro_cov'], sc['acc_cov'] = zero(), zero()
+        else:
+            sc['call_cov'] = dict(gyro_cov=[0.0, 0.0, 0.0], acc_cov=[0.0, 0.0, 0.0], form=rng.choice([1, 3]))
     return sc
 
 
@@ -1172,6 +1213,11 @@ def run(ctx):
                         + ['per_item_state'] * (len(all_states(sc)) > 1 + sum(c.get('init') is not None for c in sc['calls']))) or 'plain'
         ctx.count('form:' + form)
         ctx.count('layout:' + sc['layout'])
+        has = [c.get('init') is not None for c in sc['calls']]
+        if sc['reset'] and any(a and not b for a, b in zip(has, has[1:])):
+            ctx.count('history:reset=True, call with init_state then call without')
+        if sc['gravity'] is None or sc['gravity'] == 0:
+            ctx.count('gravity:' + ('omitted' if sc['gravity'] is None else repr(sc['gravity'])))
         ctx.case((sc['route'], sc_key(sc)), nontrivial=nfr >= 2,
                  branch='%s/%s/B%d/%s/%s/%s' % (sc['route'], sc['dtype'], sc.get('B', 0), 'rot' if sc['calls'] and sc['calls'][0].get('rot') is not None else 'norot',
                                                 'g0' if sc['gravity'] == 0 else 'g', 'chunks%d' % len(sc['calls']) if len(sc['calls']) > 1 else 'single'),
@@ -1229,9 +1275,20 @@ def run(ctx):
     d.append(decorate(rng, gen_exact(rng, 6, 2, [2, 2, 2], False, G), 'reanchor'))
     d.append(decorate(rng, gen_exact(rng, 5, 3, [4, 1], False, G), 'per_item'))
     d.append(decorate(rng, gen_exact(rng, 6, 2, [1, 2, 3], True, G), 'mixed_rot'))
+    # what the constructor is told: regimes of gravity (exactly zero as float and as int, negative, tiny, omitted = documented
+    # default, int), zero / omitted sensor covariances; optional arguments given to some calls of a history only
+    for g in (0.0, 0, -G, 2.0 ** -20, None, 8):
+        d.append(gen_exact(rng, 4, 2, [3, 1], g in (0, -G), g, reset=(g in (0.0, None))))
+    d.append(decorate(rng, gen_exact(rng, 5, 2, [2, 3], False, 0.0), 'noise_free'))
+    d.append(decorate(rng, gen_exact(rng, 4, 1, [4], True, G, reset=True), 'noise_free'))
+    d.append(decorate(rng, gen_exact(rng, 5, 2, [2, 3], False, G), 'defaults'))
+    d.append(decorate(rng, gen_exact(rng, 6, 2, [2, 1, 3], False, G), 'init_some'))
+    d.append(decorate(rng, gen_exact(rng, 6, 1, [3, 3], True, 0.0), 'init_some'))
+    d.append(decorate(rng, gen_exact(rng, 6, 2, [2, 2, 2], False, G), 'cov_some'))
     for i, sc in enumerate(d):
         add(sc, cov_exact=(i in (10, 11)))
-    MODES = [None, None, None, 'init_first', 'init_all', 'cov_call', 'reanchor', 'per_item', 'mixed_rot']
+    MODES = [None, None, None, 'init_first', 'init_all', 'cov_call', 'reanchor', 'per_item', 'mixed_rot', 'init_some', 'init_some', 'cov_some',
+             'defaults', 'noise_free']
 
     def form(sc):
         mode = rng.choice(MODES)
@@ -1260,7 +1317,7 @@ def run(ctx):
             style = rng.choice(['imu', 'imu', 'wild', 'wild', 'still', 'mixed'])
             nch = rng.choice([1, 2, 2, 3, 5]) if F > 1 else 1
             chunks = split_sizes(rng, F, nch)
-            sc = form(gen_float(rng, dtype, F, B, chunks, rng.random() < 0.4, rng.choice([0.0, 9.81007, 9.81007, 1.625]), style))
+            sc = form(gen_float(rng, dtype, F, B, chunks, rng.random() < 0.4, rng.choice([0.0, G32, G32, 1.625, None, -G32]), style))
             cost = F * B
             coq = cost <= 60 and budget[0] >= cost
             if coq:
@@ -1269,21 +1326,24 @@ def run(ctx):
         if F > 24:
             # long streams through Coq without the covariance (reset=True, prop_cov=False, one call): the prefix scan
             dtype = 'float64' if rng.random() < 0.7 else 'float32'
-            sc = gen_float(rng, dtype, F, rng.randint(1, 3), [F], rng.random() < 0.4, rng.choice([0.0, 9.81007]),
+            sc = gen_float(rng, dtype, F, rng.randint(1, 3), [F], rng.random() < 0.4, rng.choice([0.0, G32, None]),
                            rng.choice(['imu', 'wild']), reset=True, prop_cov=False)
             add(decorate(rng, sc, 'init_all') if rng.random() < 0.3 else sc)
     # one long chunked stream with covariance through Coq
-    add(gen_float(rng, 'float64', 100, 1, [37, 1, 62], False, 9.81007, 'imu'))
+    add(gen_float(rng, 'float64', 100, 1, [37, 1, 62], False, G32, 'imu'))
     # one-frame calls repeated (pure history), float
-    add(gen_float(rng, 'float64', 12, 2, [1] * 12, False, 9.81007, 'wild'))
-    add(gen_float(rng, 'float32', 9, 1, [1] * 9, True, 9.81007, 'imu'))
+    add(gen_float(rng, 'float64', 12, 2, [1] * 12, False, G32, 'wild'))
+    add(gen_float(rng, 'float32', 9, 1, [1] * 9, True, None, 'imu'))
     # call forms on generic floats (every run): init_state to the first call / to every call of a reset=True object,
     # per-call covariances, re-anchoring in the middle of a history, one state per IMU, calls with and without rot
     for mode, dtype, F, B, nch, wr_ in (('init_first', 'float64', 23, 3, 4, False), ('init_first', 'float32', 9, 2, 2, False),
                                         ('init_all', 'float64', 12, 2, 3, False), ('cov_call', 'float64', 8, 2, 2, True),
                                         ('reanchor', 'float64', 14, 2, 3, False), ('per_item', 'float32', 10, 3, 2, False),
-                                        ('per_item', 'float64', 16, 4, 3, True), ('mixed_rot', 'float64', 11, 2, 4, True)):
-        add(decorate(rng, gen_float(rng, dtype, F, B, split_sizes(rng, F, nch), wr_, 9.81007, rng.choice(['imu', 'wild', 'mixed'])), mode))
+                                        ('per_item', 'float64', 16, 4, 3, True), ('mixed_rot', 'float64', 11, 2, 4, True),
+                                        ('init_some', 'float64', 13, 2, 3, False), ('init_some', 'float32', 10, 1, 4, True),
+                                        ('cov_some', 'float64', 9, 2, 3, False), ('defaults', 'float64', 12, 2, 2, False),
+                                        ('defaults', 'float32', 7, 1, 1, True), ('noise_free', 'float64', 10, 2, 2, False)):
+        add(decorate(rng, gen_float(rng, dtype, F, B, split_sizes(rng, F, nch), wr_, rng.choice([G32, 0.0]), rng.choice(['imu', 'wild', 'mixed'])), mode))
 
     # ---------------------------------------------------------------- property clauses on the implementation
     for (sc, r, route, cov_exact, coq) in scen[1:]:
